@@ -285,8 +285,11 @@ def drv_expr(c, ctx, col):
         k = ctx["kmin"] + c.upto(ctx["k"] - ctx["kmin"])
         lhs = gen_tree(c, k, ctx["leaves"])
         rhs = None
-    style, spaced, naming = c.pick(ctx["variants"])
-    neg = c.flag() if ctx.get("neg", True) else False
+    if ctx.get("combos"):
+        style, spaced, naming, neg = c.pick(ctx["combos"])
+    else:
+        style, spaced, naming = c.pick(ctx["variants"])
+        neg = c.flag() if ctx.get("neg", True) else False
     toks_map, names, ms = resolve_naming(naming)
     tokens = render(lhs, style, toks_map)
     if rhs is not None:
@@ -512,8 +515,10 @@ def subchecks(tier, seed):
                         bounds={"binary_operators": 2, "leaves": three, "one unary minus": "every node, parenthesised and bare, shapes E and 2 = E"}))
         subs.append(Sub("literals", drv_literals, {"literals": LITERALS[:8]}, shard_depth=2, bounds={"literals": LITERALS[:8]}))
     else:
-        subs.append(Sub("expr", drv_expr, {"eq": False, "k": 3, "kmin": 0, "leaves": LEAVES6, "variants": [V[0], V[3]]},
-                        shard_depth=4, bounds={"max_binary_operators": 3, "leaves": six, "variants": "2 (min/spaced/[x,y,z]; leafy/compact/[x,y,z]) x head minus"}))
+        subs.append(Sub("expr", drv_expr, {"eq": False, "k": 3, "kmin": 0, "leaves": LEAVES6,
+                                            "combos": [V[0] + (False,), V[0] + (True,), V[3] + (False,)]},
+                        shard_depth=4, bounds={"max_binary_operators": 3, "leaves": six,
+                                               "variants": "min/spaced/[x,y,z] with and without head minus; leafy/compact/[x,y,z]"}))
         subs.append(Sub("expr-zyx", drv_expr, {"eq": False, "k": 3, "kmin": 0, "leaves": LEAVES6, "variants": [V[1]], "neg": False},
                         shard_depth=4, bounds={"max_binary_operators": 3, "leaves": six, "variants": "full parentheses, spaced, names [z,y,x]"}))
         subs.append(Sub("expr-4", drv_expr, {"eq": False, "k": 4, "kmin": 4, "leaves": LEAVES3, "variants": V[2:3], "neg": False},
@@ -527,7 +532,7 @@ def subchecks(tier, seed):
                         shard_depth=2, bounds={"constraints": "1..2", "pool": len(pool2), "forms": FORMS, "mapping_values": MAP_VALUES,
                                                "namings": list(NAMINGS)}))
         subs.append(Sub("forms-3", drv_forms, {"pool": pool3, "n": 3, "nmin": 3, "namings": ["xyz", "zyx", "ticked", "spec-numeric"],
-                                                "styles": ["min", "full"], "values": [0, 1, -2]},
+                                                "styles": ["min"], "values": [0, 1, -2]},
                         shard_depth=3, bounds={"constraints": 3, "pool": len(pool3), "forms": FORMS, "mapping_values": [0, 1, -2]}))
         subs.append(Sub("namings", drv_expr, {"eq": True, "k": 1, "kmin": 0, "leaves": [X, Y, Z, "2", "0.5"], "variants": VARIANTS_ALL},
                         shard_depth=3, bounds={"max_binary_operators_both_sides": 1, "leaves": "x y z 2 0.5", "variants": "all 42 x head minus"}))
